@@ -241,6 +241,11 @@ func (pConn *PFCPConn) Shutdown() {
 	// Cleanup all sessions in this conn
 	for _, sess := range pConn.store.GetAllSessions() {
 		pConn.upf.SendMsgToUPF(upfMsgTypeDel, sess.PacketForwardingRules, PacketForwardingRules{})
+
+		if err := releaseAllocatedIPs(pConn.upf.ippool, &sess); err != nil {
+			logger.PfcpLog.Errorf("failed to release UE IP of session %v: %v", sess.localSEID, err)
+		}
+
 		pConn.RemoveSession(sess)
 	}
 
